@@ -1237,7 +1237,9 @@ func (st *c15State) afterSettle(reason simrt.StopReason) {
 			}
 		}
 		for _, c := range ck.needClose {
-			if !c.closeTskSeen {
+			// an agent that closed the socket itself (its close callback travelled with or before
+			// this check-in) needs no close task: whichever side the teamserver notices first wins
+			if !c.closeTskSeen && !c.agentClosed {
 				st.v("closure", c.closeKind+"-no-close-task-for-agent", fmt.Sprintf("client %d (socket %08x) closed its connection; the next check-in of agent %s carried no close task for that socket", c.slot, c.id, dm.d.NameID()))
 			}
 		}
